@@ -33,7 +33,7 @@ def run(ctx):
     json.dump(stims, open(sp, "w"))
     ctx.sample({"tlc_arrival_history": stims[len(stims) // 3]})
     t1 = ctx.path("lim.ndjson")
-    ctx.driver(drv, ["-out", t1, "-stim", sp, "-random", 40 if ctx.quick else 600])
+    ctx.driver(drv, ["-out", t1, "-stim", sp, "-random", 40 if ctx.quick else 600, "-conc", 150 if ctx.quick else 2000])
     ctx.validate("LimiterTrace", t1, keyfn, describe=describe, timeout=3000, require_events=1000)
     ctx.extra["stimuli_replayed"] = len(stims)
     ctx.assumptions += [
